@@ -5,15 +5,19 @@ package fdriver
 
 import (
 	"context"
+	"encoding/hex"
 	"encoding/json"
 	"fmt"
 	"sort"
+	"strings"
 	"time"
 
 	ipfslog "berty.tech/go-ipfs-log"
 	"berty.tech/go-ipfs-log/entry"
 	"berty.tech/go-ipfs-log/iface"
 	"github.com/ipfs/go-cid"
+	cbornode "github.com/ipfs/go-ipld-cbor"
+	mh "github.com/multiformats/go-multihash"
 
 	"verif/harness/fakeipfs"
 	"verif/harness/ldriver"
@@ -207,6 +211,39 @@ func faultKind(s string) fakeipfs.FaultKind {
 
 func intPtr(v int) *int { return &v }
 
+// MalformedBlock returns well-formed CBOR that is not a decodable entry: a field the decoder needs is
+// absent, null or of the wrong type (the shapes of Codec.tla's C12 lattice that must yield an error).
+func MalformedBlock(pool *world.Pool, variant int) []byte {
+	id := pool.W(1)
+	m := map[string]interface{}{
+		"v": 2, "id": "X", "key": hex.EncodeToString(id.PublicKey), "sig": "3045", "hash": nil,
+		"next": []interface{}{}, "refs": []interface{}{},
+		"clock":   map[string]interface{}{"id": hex.EncodeToString(id.PublicKey), "time": 1},
+		"payload": "planted",
+		"identity": map[string]interface{}{"id": id.ID, "publicKey": hex.EncodeToString(id.PublicKey), "type": "orbitdb",
+			"signatures": map[string]interface{}{"id": hex.EncodeToString(id.Signatures.ID), "publicKey": hex.EncodeToString(id.Signatures.PublicKey)}},
+	}
+	switch variant % 6 {
+	case 0:
+		delete(m, "clock")
+	case 1:
+		m["clock"] = nil
+	case 2:
+		delete(m["identity"].(map[string]interface{}), "signatures")
+	case 3:
+		m["next"] = "notalist"
+	case 4:
+		m["key"] = "zz-not-hex"
+	case 5:
+		m["clock"] = map[string]interface{}{"id": 7, "time": "late"}
+	}
+	node, err := cbornode.WrapObject(m, mh.SHA2_256, -1)
+	if err != nil {
+		return []byte{0xa0}
+	}
+	return node.RawData()
+}
+
 // RunInstance executes the loader of inst over a clone of the shape's store under the schedule.
 func RunInstance(ctx context.Context, s *Shape, pool *world.Pool, inst *Instance, schedule []sched.Choice, runNo int) ([]StepRec, *Final, error) {
 	api := s.Run.API.D.Clone()
@@ -214,6 +251,12 @@ func RunInstance(ctx context.Context, s *Shape, pool *world.Pool, inst *Instance
 	for k, v := range inst.Faults {
 		var id int
 		fmt.Sscanf(k, "%d", &id)
+		if strings.HasPrefix(v, "malformed") {
+			var variant int
+			fmt.Sscanf(v, "malformed%d", &variant)
+			api.D.SetReplace(s.CidOf(id), MalformedBlock(pool, variant))
+			continue
+		}
 		api.D.SetFault(s.CidOf(id), faultKind(v))
 		if v == "slow" {
 			slow[id] = true
